@@ -132,6 +132,10 @@ theorem C15_append_basic_partial (c : Ctx) (names types names' types' : List Str
     (h2 : parseSheet c ⟨names ++ names', types ++ types'⟩ = .ok fs') :
     ∃ more, fs' = fs ++ more := by
   unfold parseSheet defaultFuel at h1 h2
+  split at h1
+  case isFalse => simp at h1
+  split at h2
+  case isFalse => simp at h2
   exact loop_append c names types names' types' hflat names.length 0 _ _ [] [] fs fs' (by simp)
     (by simp; omega) (by simp; omega) h1 h2
 
